@@ -14,10 +14,26 @@ import types
 
 from harness import vlib
 
+# formats (Discr.DecodeF): id -> (entry point, encoder of the input); the dispatcher compiled for format f calls the
+# variants' OWN `__mashumaro_from_dict_<f>__`, compiled on demand; class-level dispatchers share one registry across formats
+FMT_MIXINS = "DataClassMessagePackMixin, DataClassORJSONMixin"
+FMT_CALL = {1: "from_msgpack", 2: "from_json"}
+FMT_KEYS = {"F1": 1, "F2": 2}
+
+
+def fmt_encode(f: int, arg):
+    if f == 1:
+        import msgpack
+        return msgpack.packb(arg)
+    import orjson
+    return orjson.dumps(arg)
+
+
 FIELDS = ["type", "kind", "shape"]     # discriminator key names; id = position
 FIELD = FIELDS[0]
 N_ENUM = 200         # members of the StrEnum used for enum-styled tags
 KERR_MARKER = 999    # Discr.kerr_marker: the input carries the key "kerr"
+AERR_MARKER = 998    # Discr.aerr_marker: the input carries the key "aerr"
 
 PREAMBLE = """
 from dataclasses import dataclass, field
@@ -28,6 +44,8 @@ from mashumaro.config import ADD_DIALECT_SUPPORT, BaseConfig
 from mashumaro.dialect import Dialect
 from mashumaro.types import Discriminator
 from mashumaro.codecs import BasicDecoder
+from mashumaro.mixins.msgpack import DataClassMessagePackMixin
+from mashumaro.mixins.orjson import DataClassORJSONMixin
 
 class D1(Dialect):
     serialization_strategy = {}
@@ -53,6 +71,8 @@ def kerr_hook(cls, d):
     # a variant whose own from_dict leaks a KeyError (e.g. a hook indexing a mapping) on inputs carrying the marker
     if "kerr" in d:
         raise KeyError("kerr:" + cls.__name__)
+    if "aerr" in d:
+        raise AttributeError("aerr:" + cls.__name__)
     return d
 """ % N_ENUM
 
@@ -150,7 +170,7 @@ def class_src(c: dict, style: str, kind: str) -> str:
     if c["parents"]:
         bases = ", ".join(f"C{p}" for p in c["parents"])
     else:
-        bases = "" if c["plain"] else "DataClassDictMixin"
+        bases = "" if c["plain"] else (FMT_MIXINS if c.get("fmtmix") else "DataClassDictMixin")
     lines = ["@dataclass", f"class C{c['id']}({bases}):" if bases else f"class C{c['id']}:"]
     body = []
     if kind in ("field", "mixed"):
@@ -231,7 +251,7 @@ def site_create_src(s: dict) -> str:
     if s["wiring"] == "codec":
         dd = ", default_dialect=D1" if s.get("dialects") else ""
         return f"{s['name']} = BasicDecoder({site_type_src(s)}{dd})\n"
-    src = f"@dataclass\nclass {s['name']}(DataClassDictMixin):\n    v: {site_type_src(s)}\n"
+    src = f"@dataclass\nclass {s['name']}({FMT_MIXINS if s.get('formats') else 'DataClassDictMixin'}):\n    v: {site_type_src(s)}\n"
     if s.get("dialects"):
         src += "    class Config(BaseConfig):\n        code_generation_options = [ADD_DIALECT_SUPPORT]\n"
     return src
@@ -277,6 +297,10 @@ def gen_history(rng, stream: str = "main", max_ops: int = 40) -> Hist:
     # call-time dialects (Config roots and holders with ADD_DIALECT_SUPPORT, codecs with default_dialect): the registries
     # are shared by all dialects, a variant compiled on demand gets its default method (/repo 523ca35)
     use_dialects = rng.random() < 0.3
+    # formats: mixin roots / holders that also provide from_msgpack and (orjson) from_json.  One generated dispatcher per
+    # format; class-level dispatchers share ONE registry across formats while a variant's per-format method is compiled
+    # on demand (registered but not compiled = a miss); a holder compiled for a format has its own registries
+    use_formats = stream != "kf" and rng.random() < 0.35
     nonfield = kind == "mixed" or use_tagger or rng.random() < (0.55 if spectrum else 0.35)
     decls = ["classvar", "plain"] if nonfield else (["field", "literal"] if spectrum else ["field", "literal", "final"])
     # discriminator key names in use: dispatchers of one hierarchy may look at different keys (an outer one at "type",
@@ -366,7 +390,7 @@ def gen_history(rng, stream: str = "main", max_ops: int = 40) -> Hist:
         ttag_js = {g: [rng.randrange(8) if free_spelling else 0 for _ in tgs] for g, tgs in (ttags or {}).items()}
         kerr = use_kerr and rng.random() < 0.25
         c = {"id": cid, "parents": parents, "own_tags": own_tags, "ttags": ttags, "ttag_bare": rng.random() < 0.5,
-             "own_js": own_js, "ttag_js": ttag_js, "kerr": kerr,
+             "own_js": own_js, "ttag_js": ttag_js, "kerr": kerr, "fmtmix": bool(root and not plain and use_formats and rng.random() < 0.8),
              "own_req": own_req, "decl": rng.choice(decls), "plain": plain, "config": config}
         classes.append(c)
         mirror.append(type(f"M{cid}", tuple(mirror[p] for p in parents), {}))
@@ -380,7 +404,10 @@ def gen_history(rng, stream: str = "main", max_ops: int = 40) -> Hist:
             s = dict(config)
             s.update({"wiring": "config", "bases": [cid], "config": True, "name": f"C{cid}"})
             sites.append(s)
-            units.append({d: [len(sites) - 1] for d in ([None, "D1", "D2"] if s.get("dialects") else [None])})
+            unit = {d: [len(sites) - 1] for d in ([None, "D1", "D2"] if s.get("dialects") else [None])}
+            if classes[root_of[cid]].get("fmtmix"):
+                unit.update({"F1": [len(sites) - 1], "F2": [len(sites) - 1]})      # same model site: shared registry
+            units.append(unit)
 
     def pick_parents():
         p = rng.randrange(len(classes))
@@ -446,8 +473,9 @@ def gen_history(rng, stream: str = "main", max_ops: int = 40) -> Hist:
         s = site_settings(wiring, pick_mode() if stream != "kf" else False)
         s["name"] = ("DEC" if s["wiring"] == "codec" else "H") + str(len(sites))
         s["dialects"] = use_dialects and stream != "kf" and rng.random() < 0.5
+        s["formats"] = use_formats and s["wiring"] == "holder" and not s["dialects"] and rng.random() < 0.6
         unit = {}
-        for d in ([None, "D1", "D2"] if (s["dialects"] and s["wiring"] == "holder") else [None]):
+        for d in ([None, "D1", "D2"] if (s["dialects"] and s["wiring"] == "holder") else [None, "F1", "F2"] if s["formats"] else [None]):
             sites.append(dict(s))
             unit[d] = [len(sites) - 1]
         units.append(unit)
@@ -516,8 +544,12 @@ def gen_history(rng, stream: str = "main", max_ops: int = 40) -> Hist:
             for f in present:
                 inp[f"f{f}"] = f
         if use_kerr and rng.random() < 0.3:
-            inp["kerr"] = 1
-            present = present + [KERR_MARKER]
+            if rng.random() < 0.6:
+                inp["kerr"] = 1
+                present = present + [KERR_MARKER]
+            else:
+                inp["aerr"] = 1
+                present = present + [AERR_MARKER]
         return keys, present, inp
 
     def decode():
@@ -525,10 +557,15 @@ def gen_history(rng, stream: str = "main", max_ops: int = 40) -> Hist:
         dialect = rng.choice(sorted(by_dialect, key=str))
         unit = by_dialect[dialect]
         s = sites[unit[0]]
+        fmt_id = FMT_KEYS.get(dialect, 0)
+        if fmt_id:
+            dialect = None
         if len(unit) == 1 and stream != "kf" and rng.random() < 0.04:
             # the input is not a mapping (never None: the Optional shapes answer None themselves)
             ops.append(("decodebad", unit[0]))
             step = decode_step(s, rng.choice([[1, 2], 5, "abc", 1.5, [], True]))
+            if fmt_id:
+                step["fmt"] = fmt_id          # the same non-mapping value, encoded
             if dialect:
                 step["dialect"] = dialect
             script.append(step)
@@ -536,8 +573,10 @@ def gen_history(rng, stream: str = "main", max_ops: int = 40) -> Hist:
             return
         if len(unit) == 1:
             keys, present, inp = gen_input(s)
-            ops.append(("decode", unit[0], dict(keys), present))
+            ops.append(("decode", unit[0], dict(keys), present) + ((fmt_id,) if fmt_id else ()))
             step = decode_step(s, inp)
+            if fmt_id:
+                step["fmt"] = fmt_id
         else:
             parts = [gen_input(sites[i]) for i in unit]
             ops.append(("decodeseq", [(i, dict(k), pr) for i, (k, pr, _) in zip(unit, parts)]))
@@ -594,6 +633,7 @@ def gen_history(rng, stream: str = "main", max_ops: int = 40) -> Hist:
 # ---------------------------------------------------------------------------
 
 _MOD_COUNTER = [0]
+_CLOSED = [0]
 
 
 class Sandbox:
@@ -630,6 +670,23 @@ class Sandbox:
         if self.mod_b is not None:
             self.mod_b.__dict__.clear()
         self.ns.clear()
+        # mashumaro memoises per-builder results in module-level lru_caches (get_field_default: unbounded), which keep every
+        # CodeBuilder - and through it every class of every history - alive: ~0.4 MB per history, > 1 GB in the thorough tier
+        try:
+            from mashumaro.core.meta.code.builder import CodeBuilder
+            for attr in ("get_field_default", "get_config"):
+                fn = getattr(CodeBuilder, attr, None)
+                if hasattr(fn, "cache_clear"):
+                    fn.cache_clear()
+            df = getattr(CodeBuilder, "dataclass_fields", None)
+            if isinstance(df, property) and hasattr(df.fget, "cache_clear"):
+                df.fget.cache_clear()
+        except Exception:  # noqa: BLE001 - housekeeping only
+            pass
+        _CLOSED[0] += 1
+        if _CLOSED[0] % 50 == 0:
+            import gc
+            gc.collect()
 
 
 def unwrap_exc(e: BaseException):
@@ -667,6 +724,8 @@ def outcome_of_exc(e: BaseException):
         while cur is not None and n < 6:       # the selected class's own KeyError surfaces (it names the class)
             if type(cur) is KeyError and cur.args and isinstance(cur.args[0], str) and cur.args[0].startswith("kerr:C"):
                 return ("keyerr", cur.args[0][5:])
+            if type(cur) is AttributeError and cur.args and isinstance(cur.args[0], str) and cur.args[0].startswith("aerr:C"):
+                return ("attrerr", cur.args[0][5:])
             cur = cur.__cause__ or cur.__context__
             n += 1
         cur, n = e, 0
@@ -682,6 +741,13 @@ def outcome_of_exc(e: BaseException):
             cur = cur.__cause__ or cur.__context__
             n += 1
     return ("rej", u[4:]) if u.startswith("rej:") else (u,)
+
+
+def call_label(step: dict) -> str:
+    """the entry point as it is really called (from_msgpack / from_json of the same object for a format step)"""
+    if step.get("fmt"):
+        return step["call"].split(".")[0] + "." + FMT_CALL[step["fmt"]] + "<encoded>"
+    return step["call"]
 
 
 def do_decode(ns: dict, step: dict):
@@ -706,6 +772,9 @@ def do_decode(ns: dict, step: dict):
     arg = shape[1](inp) if shape else inp
     if step.get("holder"):
         arg = {"v": arg}
+    if step.get("fmt"):
+        fn = getattr(ns[obj], FMT_CALL[step["fmt"]])
+        arg = fmt_encode(step["fmt"], arg)
     try:
         r = fn(arg, dialect=ns[step["dialect"]]) if step.get("dialect") else fn(arg)
         if step.get("holder"):
@@ -772,7 +841,9 @@ def spec_field(ns: dict, n_classes: int, s: dict, inp: dict):
                      "tgid": 1 if d.variant_tagger_fn is ns.get("tagger1") else 0}
             return spec_field(ns, n_classes, inner, inp)[0], True
         if leaks_keyerror(ns, c, inp):     # the selected class's own from_dict raises KeyError: that error (or anything but
-            return ("keyerr", c.__name__), True      # "no suitable variant") should surface - known finding variant-keyerror-misreported
+            return ("keyerr", c.__name__), True      # "no suitable variant") surfaces (/repo 2eac3a7)
+        if leaks_keyerror(ns, c, inp, "aerr"):
+            return ("attrerr", c.__name__), True
         if not spec_accepts(ns, c, inp):   # selected, but the class itself rejects the input: its own error surfaces
             return ("rej", c.__name__), True
         return ("inst", c.__name__), True
@@ -781,13 +852,13 @@ def spec_field(ns: dict, n_classes: int, s: dict, inp: dict):
     return None, False
 
 
-def leaks_keyerror(ns: dict, c, inp: dict) -> bool:
+def leaks_keyerror(ns: dict, c, inp: dict, marker: str = "kerr") -> bool:
     hook = getattr(c, "__pre_deserialize__", None)
-    return hook is not None and getattr(hook, "__func__", None) is ns.get("kerr_hook") and "kerr" in inp
+    return hook is not None and getattr(hook, "__func__", None) is ns.get("kerr_hook") and marker in inp
 
 
 def spec_accepts(ns: dict, c, inp: dict) -> bool:
-    if leaks_keyerror(ns, c, inp):
+    if leaks_keyerror(ns, c, inp) or leaks_keyerror(ns, c, inp, "aerr"):
         return False
     return all(f.name in inp for f in dataclasses.fields(c)
                if f.init and f.default is dataclasses.MISSING and f.default_factory is dataclasses.MISSING)
@@ -882,7 +953,7 @@ def run_history(h: Hist):
                 # a field dispatcher names the problem (ValueError, /repo 60866ea); without a key nobody accepts the input
                 exp = ("notdict",) if s["field"] else ("notfound",)
                 if obs != exp and (s["field"] or obs[0] == "inst"):
-                    fails.append((k, f"{step['call']}({step['input']!r}) -> {fmt(obs)}, expected {fmt(exp)}", fmt(exp), fmt(obs),
+                    fails.append((k, f"{call_label(step)}({step['input']!r}) -> {fmt(obs)}, expected {fmt(exp)}", fmt(exp), fmt(obs),
                                   {"kind": "non-mapping-input", "wiring": s["wiring"]}))
                 continue
             shadow = shadowed(ns, n_classes) if not s["field"] else set()
@@ -894,7 +965,7 @@ def run_history(h: Hist):
                 if exp is not None and exp != obs:
                     kf = exp[0] == "keyerr" and obs == ("notfound",)
                     kf2 = obs == ("crash",) and site_has_none(s) and s["sup"] and s["tagger"] and s["wiring"] == "holder"
-                    fails.append((k, f"{step['call']}({step['input']}) -> {fmt(obs)}, expected {fmt(exp)}",
+                    fails.append((k, f"{call_label(step)}({step['input']}) -> {fmt(obs)}, expected {fmt(exp)}",
                                   fmt(exp), fmt(obs), {"kind": "variant-keyerror-misreported" if kf else
                                                        "optional-union-nonetype-variant" if kf2 else "field-dispatch", "wiring": s["wiring"]}))
             else:
@@ -902,7 +973,7 @@ def run_history(h: Hist):
                 if why is not None:
                     should = acc_sub if acc_sub else acc_sup
                     sig = {"kind": "nofield-dispatch", "wiring": s["wiring"]}
-                    fails.append((k, f"{step['call']}({step['input']}) -> {fmt(obs)}: {why}",
+                    fails.append((k, f"{call_label(step)}({step['input']}) -> {fmt(obs)}: {why}",
                                   "one of " + ",".join(c.__name__ for c in should) if should else "SuitableVariantNotFoundError",
                                   fmt(obs), sig))
         if COLLECT_WALKS[0] > 0:
@@ -928,6 +999,8 @@ def fmt(o) -> str:
         return "rejected by " + o[1]
     if o[0] == "keyerr":
         return "KeyError of " + o[1]
+    if o[0] == "attrerr":
+        return "AttributeError of " + o[1]
     if o[0] == "many":
         return "+".join(o[1])
     if o[0] == "notdict":
@@ -973,7 +1046,9 @@ def coq_op(op) -> str:
         return "DecodeSeq [" + "; ".join(f"({si}, {coq_inkeys(k)}, {coq_nats(pr)})" for si, k, pr in op[1]) + "]"
     if op[0] == "decodebad":
         return f"DecodeBad {op[1]}"
-    _, si, keys, present = op
+    _, si, keys, present = op[:4]
+    if len(op) > 4 and op[4]:
+        return f"DecodeF {int(op[4])} {si} {coq_inkeys(keys)} {coq_nats(present)}"
     return f"Decode {si} {coq_inkeys(keys)} {coq_nats(present)}"
 
 
@@ -995,6 +1070,8 @@ def coq_outcome(o) -> str:
         return "Some OCrash"
     if o[0] == "keyerr" and o[1].startswith("C") and o[1][1:].isdigit():
         return f"Some (OKeyErr {int(o[1][1:])})"
+    if o[0] == "attrerr" and o[1].startswith("C") and o[1][1:].isdigit():
+        return f"Some (OAttrErr {int(o[1][1:])})"
     if o[0] == "rej" and o[1].startswith("C") and o[1][1:].isdigit():
         return f"Some (ORej {int(o[1][1:])})"
     if o[0] == "many" and all(n.startswith("C") and n[1:].isdigit() for n in o[1]):
@@ -1033,7 +1110,7 @@ def build_fixed(kind: str, style: str, classes_spec: list, sites_spec: list, eve
                  "ttags": tt, "ttag_bare": spec.get("bare", False), "kerr": spec.get("kerr", False),
                  "own_js": {fid: spec.get("own_j", 0) for fid in own_tags}, "ttag_js": spec.get("ttag_js"),
                  "own_req": spec.get("own_req", []), "decl": spec.get("decl", "field"), "plain": spec.get("plain", False),
-                 "config": spec.get("config")}
+                 "config": spec.get("config"), "fmtmix": spec.get("fmtmix", False)}
             classes.append(c)
             ops.append(("define", list(c["parents"]), dict(own_tags), {g: list(t) for g, t in (tt or {}).items()},
                         list(c["own_req"]) if kind != "field" else [], c["kerr"]))
@@ -1053,11 +1130,11 @@ def build_fixed(kind: str, style: str, classes_spec: list, sites_spec: list, eve
                 wiring, shape = "holder", "list"
             s = {"wiring": wiring, "bases": spec["bases"], "sub": spec.get("sub", True), "sup": spec.get("sup", False),
                  "field": spec.get("field", kind != "nofield"), "tagger": spec.get("tagger", False), "config": False, "fid": spec.get("fid", 0),
-                 "tgid": spec.get("tgid", 0), "dialects": spec.get("dialects", False),
+                 "tgid": spec.get("tgid", 0), "dialects": spec.get("dialects", False), "formats": spec.get("formats", False),
                  "shape": shape, "name": ("DEC" if wiring == "codec" else "H") + str(len(sites))}
             site_index[("site", ev[1])] = len(sites)
             sites.append(s)
-            if s["dialects"] and wiring == "holder":      # one model site (own registries) per call-time dialect
+            if (s["dialects"] or s["formats"]) and wiring == "holder":      # one model site (own registries) per call-time dialect / format
                 sites.append(dict(s))
                 sites.append(dict(s))
             script.append({"op": "exec", "src": site_create_src(s), **({"module": "b"} if spec.get("module") == "b" else {})})
@@ -1067,8 +1144,9 @@ def build_fixed(kind: str, style: str, classes_spec: list, sites_spec: list, eve
             j = ev[4] if len(ev) > 4 else 0
             si = site_index[skey]
             s = sites[si]
-            if len(ev) > 6 and ev[6] and s["dialects"] and s["wiring"] == "holder":
-                si += {"D1": 1, "D2": 2}[ev[6]]
+            fmt_id = FMT_KEYS.get(ev[6], 0) if len(ev) > 6 else 0
+            if len(ev) > 6 and ev[6] and (s.get("dialects") or s.get("formats")) and s["wiring"] == "holder":
+                si += {"D1": 1, "D2": 2, "F1": 1, "F2": 2}[ev[6]]
             inp = {}
             keys = {}
             if kind != "nofield":
@@ -1082,13 +1160,20 @@ def build_fixed(kind: str, style: str, classes_spec: list, sites_spec: list, eve
                 for f in present:
                     if f == KERR_MARKER:
                         inp["kerr"] = 1
+                    elif f == AERR_MARKER:
+                        inp["aerr"] = 1
                     else:
                         inp[f"f{f}"] = f
-            elif KERR_MARKER in present:
-                inp["kerr"] = 1
-            ops.append(("decode", si, keys, list(present)))
+            else:
+                if KERR_MARKER in present:
+                    inp["kerr"] = 1
+                if AERR_MARKER in present:
+                    inp["aerr"] = 1
+            ops.append(("decode", si, keys, list(present)) + ((fmt_id,) if fmt_id else ()))
             st_ = decode_step(s, inp)
-            if len(ev) > 6 and ev[6]:
+            if fmt_id:
+                st_["fmt"] = fmt_id
+            elif len(ev) > 6 and ev[6]:
                 st_["dialect"] = ev[6]
             script.append(st_)
             op_of_step.append(len(ops) - 1)
@@ -1160,6 +1245,30 @@ def fixed_histories() -> list[Hist]:
           ("decode", ("site", 0), 1, []), ("decode", ("site", 1), 1, [])]
     out.append(build_fixed("field", "str", cl, st, ev))
     out[-1].meta["tag"] = "nonunique"
+    # formats: a class-level root whose mixins provide from_msgpack / (orjson) from_json.  ONE registry for the three
+    # dispatchers; a variant registered by from_dict has no msgpack method yet (hit without own method = miss -> refill);
+    # classes defined between calls in different formats; a nested class-level dispatcher (class 3, key "kind") entered
+    # in every format; a holder with formats (own registries per format) over the same hierarchy; non-unique tail: the
+    # duplicate of tag 7 (class 7) is invisible to from_dict (stale hit on class 6) until a call in another format finds
+    # class 6 without its own method and refills
+    cfg2 = {"field": True, "sub": True, "sup": False, "tagger": False, "fid": 1}
+    cl = [dict(config=cfg, fmtmix=True, decl="plain"), dict(parents=[0], own_tag=1, decl="plain"), dict(parents=[0], own_tag=2, decl="plain"),
+          dict(parents=[0], own_tags={0: 3}, config=cfg2, decl="plain"), dict(parents=[3], own_tags={1: 4}, decl="plain"),
+          dict(parents=[1], own_tag=5, decl="plain"), dict(parents=[0], own_tag=7, decl="plain"), dict(parents=[0], own_tag=7, decl="plain")]
+    st = [dict(wiring="holder", bases=[0], formats=True)]
+    ev = [("define", 0), ("define", 1), ("decode", ("config", 0), 1, []), ("define", 2),
+          ("decode", ("config", 0), 1, [], 0, {}, "F1"), ("decode", ("config", 0), 2, []), ("decode", ("config", 0), 2, [], 0, {}, "F2"),
+          ("decode", ("config", 0), None, [], 0, {}, "F1"), ("decode", ("config", 0), 9, [], 0, {}, "F2"),
+          ("define", 3), ("define", 4), ("decode", ("config", 0), 3, [], 0, {1: 4}, "F1"), ("decode", ("config", 0), 3, [], 0, {1: 4}),
+          ("decode", ("config", 3), None, [], 0, {1: 4}, "F2"), ("decode", ("config", 0), 3, [], 0, {}, "F2"),
+          ("site", 0), ("decode", ("site", 0), 1, [], 0, {}, "F1"), ("define", 5), ("decode", ("site", 0), 5, [], 0, {}, "F1"),
+          ("decode", ("site", 0), 5, []), ("decode", ("site", 0), 3, [], 0, {1: 4}, "F2"), ("decode", ("config", 0), 5, [], 0, {}, "F2"),
+          ("decode", ("config", 0), 5, []),
+          ("define", 6), ("decode", ("config", 0), 7, []), ("define", 7), ("decode", ("config", 0), 7, []),
+          ("decode", ("config", 0), 7, [], 0, {}, "F1"), ("decode", ("config", 0), 7, []), ("decode", ("site", 0), 7, [], 0, {}, "F2"),
+          ("decode", ("site", 0), 7, [])]
+    out.append(build_fixed("field", "str", cl, st, ev))
+    out[-1].meta["tag"] = "formats"
     # tagger with list / bare results, config wiring with include_supertypes (dropped by the builder)
     cfgt = {"field": True, "sub": True, "sup": True, "tagger": True}
     cl = [dict(config=cfgt, ttags=[0]), dict(parents=[0], ttags=[1, 2]), dict(parents=[1], ttags=[3], bare=True), dict(parents=[0], ttags=[])]
@@ -1228,10 +1337,10 @@ def fixed_histories() -> list[Hist]:
     ev = [("define", k) for k in range(7)] + [("site", 0), ("site", 1)]
     for skey in (("config", 0), ("site", 0)):
         ev += [("decode", skey, 1, [8]), ("decode", skey, 1, []), ("decode", skey, 2, []), ("decode", skey, 2, [9]),
-               ("decode", skey, 3, []), ("decode", skey, 3, [KERR_MARKER]), ("decode", skey, None, [8])]
+               ("decode", skey, 3, []), ("decode", skey, 3, [KERR_MARKER]), ("decode", skey, 3, [AERR_MARKER]), ("decode", skey, None, [8])]
     for skey in (("config", 1), ("site", 1)):
         ev += [("decode", skey, 2, [9]), ("decode", skey, None, [9]), ("decode", skey, None, [7]), ("decode", skey, 1, []),
-               ("decode", skey, None, [7, KERR_MARKER])]
+               ("decode", skey, None, [7, KERR_MARKER]), ("decode", skey, None, [7, AERR_MARKER])]
     out.append(build_fixed("mixed", "str", cl, st, ev))
     # known finding optional-union-nonetype-variant, in the model: Annotated[Optional[Union[C0, C1]], D(sup, tagger)] through
     # a holder - every registry miss crashes after registering the real classes, the same input works afterwards; a codec
@@ -1416,8 +1525,8 @@ def probe_optional_union(ctx: vlib.Ctx, n: int):
 # the check
 # ---------------------------------------------------------------------------
 
-CODE_THEOREMS = ["C12_code_variants", "C12_code_exceptions"]
-THEOREMS = ["C12_registry_invariant", "C12_registry", "C12_missing_tag", "C12_present_keys_not_missing", "C12_nested_missing_key", "C12_multi_field", "C12_dispatch_ref", "C12_history_independent_full", "C12_uniq_all_decidable", "C12_unhashable_tag", "C12_non_mapping", "C12_history_independent",
+CODE_THEOREMS = ["C12_code_variants", "C12_code_exceptions", "C12_code_dispatcher"]
+THEOREMS = ["C12_registry_invariant", "C12_registry", "C12_missing_tag", "C12_present_keys_not_missing", "C12_nested_missing_key", "C12_multi_field", "C12_dispatch_ref", "C12_dispatch_ref_fmt", "C12_format_independent", "C12_format_reset", "C12_history_independent_full", "C12_uniq_all_decidable", "C12_registry_nested", "C12_nofield_nested", "C12_unhashable_tag", "C12_non_mapping", "C12_history_independent",
             "C12_eligible_exact", "C12_nofield", "C12_trace_event", "C12_tag_unique_decidable",
             "C12_nonunique_order_dependent", "C12_class_level_self_excluded",
             "C12_nofield_plain_holder"]
@@ -1439,8 +1548,11 @@ def run(ctx: vlib.Ctx):
         "whose own from_dict leaks a KeyError; sites = Config root / Annotated holder field / holder with 2-3 discriminated "
         "fields (one call, several sites) / BasicDecoder, over one class or a Union, 10 annotation shapes, holders in the "
         "classes' module or in another one, call-time dialects incl. first calls (one model site per holder x dialect), "
-        "codecs with default_dialect; inputs: present / future / unknown / absent keys, non-mapping inputs; 25% of the "
-        "histories have duplicate tags (correspondence only). Plus 14 fixed edge histories, the stream inside the known-"
+        "codecs with default_dialect, FORMATS (35% of the histories: mixin roots / holders that also provide from_msgpack and "
+        "orjson's from_json; calls in the three formats interleaved with definitions - one shared registry per class-level "
+        "dispatcher, per-format variant methods compiled on demand, model op DecodeF); inputs: present / future / unknown / "
+        "absent keys, non-mapping inputs; 25% of the "
+        "histories have duplicate tags (correspondence only). Plus 16 fixed edge histories, the stream inside the known-"
         "former finding region (plain holders, no-field) and two probes (several taggers in one holder, Optional-Union).")
     ctx.assumptions += [
         "tag uniqueness is required only for the tags the input carries, at the dispatchers that read them, among the classes "
